@@ -198,6 +198,6 @@ unsafe impl<'a, Registry, Filter, Views, Indices> Send
     for Iter<'a, Registry, Filter, Views, Indices>
 where
     Registry: registry::Registry,
-    Views: view::Views<'a>,
+    Views: view::Views<'a> + Send,
 {
 }
